@@ -84,8 +84,15 @@ func runC17(c *Ctx) error {
 			if inRng.Intn(6) == 0 {
 				f.Fail = inRng.Intn(3)
 			}
-			if inRng.Intn(4) == 0 {
-				f.UseSrc, f.Src, f.Toks = true, srcOf(f.Toks, inRng), nil
+			if inRng.Intn(3) == 0 {
+				src := srcOf(f.Toks, inRng)
+				if inRng.Intn(2) == 0 {
+					// characters beyond ASCII (1-4 byte encodings, also ill-formed bytes) somewhere in the text
+					junk := []string{"é", "λ", "中", "😀", "\xff", "ß ü", "\u00a0"}[inRng.Intn(7)]
+					k := inRng.Intn(len(src) + 1)
+					src = append(src[:k:k], append([]byte(" "+junk+" "), src[k:]...)...)
+				}
+				f.UseSrc, f.Src, f.Toks = true, src, nil
 			}
 			fs = append(fs, f)
 		}
